@@ -438,6 +438,18 @@ func c04OtherLimits(w *fw.W, idx int) {
 			w.Violation("runtime-unusable-after-tail-limit", after.Outcome()+" "+after.Msg, src)
 			return
 		}
+		// the bound is per loop: later loops at the SAME stack depth, each within the
+		// limit, must run whatever happened there before (a caught limit error, or
+		// earlier loops whose turns add up to more than the limit)
+		small := (lim*3 + 4) / 5
+		for rep := 0; rep < 3; rep++ {
+			again := rr.Run("c04-again", fmt.Sprintf("(handler-bind ((condition (lambda (c &rest a) 'caught))) (spin %d))\n", small))
+			w.Eval(1)
+			if again.Value != "'done" {
+				w.Violation("tail-limit-accumulates", fmt.Sprintf("MaxTailIterations=%d: after a loop of %d turns, loop #%d of %d turns at the same depth gave %s %s", lim, n, rep+1, small, again.Outcome(), again.Msg), src)
+				return
+			}
+		}
 		w.CoverKey(fmt.Sprintf("tail|lim=%d|%s", lim, t.Value))
 		if lim <= 20 {
 			e := lim + r.Range(-3, 5)
